@@ -39,3 +39,23 @@ Example C14_nonvacuous :
   /\ gaccept [mk "a" ["a"]]%string = VCycle /\ gaccept [mk "a" ["b"]; mk "b" ["a"]]%string = VCycle
   /\ gaccept [mk "a" ["zz"]; mk "b" ["a"]]%string = VMissing.
 Proof. exact (conj gaccept_diamond (conj gaccept_self (conj gaccept_two gaccept_dangling))). Qed.
+
+(* ---- link to the step scheduler (Sched/Model.v) ---------------------------------------------------------------
+   A configuration whose depends entries resolve and whose edge list passes the code's cycle check has a rank that
+   strictly decreases along dependencies (`wf_deps`, the premise of the scheduler's progress theorems C15/C05), and
+   every run of it can be driven to completion from any reachable state. *)
+From BD.Sched Require Import Model Proofs ProofsTerm.
+From BD.Graph Require Import Rank RankSched.
+
+Theorem C14_accepted_graph_wf_deps : forall c : cfg,
+  (forall i d, i < nsteps c -> In d (deps (steps c i)) -> d < nsteps c) ->
+  has_cycle (nsteps c) (cfg_edges c) = false -> wf_deps c.
+Proof. exact accepted_graph_wf_deps. Qed.
+Print Assumptions C14_accepted_graph_wf_deps.
+
+Theorem C14_accepted_graph_completes : forall c : cfg, norepeat c ->
+  (forall i d, i < nsteps c -> In d (deps (steps c i)) -> d < nsteps c) ->
+  has_cycle (nsteps c) (cfg_edges c) = false ->
+  forall s, Reach c s -> exists ls s', run c s ls = Some s' /\ pc s' = LDone.
+Proof. exact accepted_graph_completes. Qed.
+Print Assumptions C14_accepted_graph_completes.
